@@ -336,6 +336,9 @@ func ruleC20(c *Check, p *Prog) {
 			fmt.Sprintf("directory mode %#o grants the owner rwx", perm),
 			fmt.Sprintf("directory mode %#o lacks owner search/write permission: a non-root user cannot create files (or sub-directories) in the directory just made", perm))
 	}
+	checkWorkersAt(c, p, "R-DISPATCH", "rdgen.main/workers", S, goEv)
+	// cross-tool agreement: the detector counts a file named random<k>.bin in the output directory as a sample
+	checkDetectorAccepts(c, p)
 	// R-DEFAULT-DOC
 	checkGenFlags(c, p, x)
 }
@@ -410,4 +413,57 @@ func checkGenFlags(c *Check, p *Prog, x *Ext) {
 		}
 	}
 	c.Expect(len(probs) == 0, "R-DEFAULT-DOC", "rdgen/flags", "tools/rdgen/main.go:20", "-s/-n/-o are bound to s/n/output with defaults 1000 / 1000000 / \"target/data\", the documented default", strings.Join(probs, "; "))
+}
+
+// checkDetectorAccepts evaluates the batch detector's counting filter on a generated file name.
+func checkDetectorAccepts(c *Check, p *Prog) {
+	fn := p.Func(pkgDet, "toBeTestFileNum")
+	if fn == nil {
+		c.Fail("R-NAME", "rddetector-accepts", "-", "rddetector.toBeTestFileNum not found")
+		return
+	}
+	x := NewExt(p, NewStore(), detConfig())
+	sum := x.Summarize(fn, nil, nil)
+	S := x.S
+	var walk *Event
+	sum.Top.Events(func(e *Event, _ []*LoopS) {
+		if e.Kind == "call" && e.Callee == "path/filepath.Walk" {
+			walk = e
+		}
+	})
+	if walk == nil || len(walk.Args) < 2 || walk.Args[1].Op != "closure" {
+		c.Undecided("R-NAME", "rddetector-accepts", p.Pos(fn.Pos()), "counting walk not recognised")
+		return
+	}
+	clo := walk.Args[1]
+	args := walkArgs(x, 0)
+	x.Summarize(clo.Args[0].Sym.Obj.(*ssa.Function), args, clo.Args[1:])
+	var cond *Term
+	for _, f := range clo.Args[1:] {
+		if isCellTerm(f) && strings.HasPrefix(f.Sym.Name, "samples") {
+			if cur := x.cellCur[f.Sym]; cur != nil && cur.Op == "ite" {
+				cond = cur.Args[0]
+			}
+		}
+	}
+	if cond == nil {
+		c.Undecided("R-NAME", "rddetector-accepts", p.Pos(fn.Pos()), "sample-count condition not recognised")
+		return
+	}
+	// a regular file (info != nil, !IsDir) named <dir>/random7.bin
+	ok := true
+	for _, name := range []string{"out/random0.bin", "/abs/dir/random17.bin"} {
+		e := NewEnv(3)
+		e.Over[args[0].Sym] = Val{K: TString, S: name}
+		// info: non-nil and not a directory
+		isDir := S.mkOp("call:invoke:IsDir", TBool, args[1])
+		nilCmp := S.Cmp("==", args[1], S.Nil)
+		e.memo[isDir] = Val{K: TBool, B: false}
+		e.memo[nilCmp] = Val{K: TBool, B: false}
+		if !e.Eval(cond).B {
+			ok = false
+		}
+	}
+	c.Expect(ok, "R-NAME", "rddetector-accepts", p.Pos(fn.Pos()), "the batch detector's sample filter accepts a regular file named random<k>.bin (generator and detector agree on the suffix)",
+		fmt.Sprintf("the batch detector's sample filter %v does not accept a regular file named random<k>.bin", cond))
 }
